@@ -21,6 +21,8 @@ from vlib.props import C01
 
 ID = "C04"
 LEVEL = "exploration"
+EXHAUSTIVE = False
+EXHAUSTIVE_STREAMS = {'pattern': 'all well-formed operation sequences within the stated lengths (complete)', 'random': 'sampled'}
 RULE = ("case = script of 2-4 generated statements (read set over base tables and earlier targets x column-overlap pattern x expression form x statement "
         "kind {INSERT (cols), CTAS, CREATE VIEW} x optional derived table x optional re-write of an earlier target), analysed without provider and with a "
         "truthy dict provider (+ star / unqualified-column variants that need the session metadata). Non-trivial = at least one reported path has >= 3 nodes "
